@@ -27,6 +27,8 @@ _mpz_realloc (mpz_ptr m, mp_size_t new_alloc)
 {
   mp_ptr mp;
 
+  MPIR_VERIF_POINT (MPIR_VERIF_PT_MPZ_REALLOC);
+
   /* Never allocate zero space. */
   new_alloc = MAX (new_alloc, 1);
 
